@@ -585,3 +585,12 @@ mutant("c06-fold-cursor-loop-advances-before-reading", ["C06", "C03"], [("src/it
 mutant_on_patch("m-B20p3-repeat-vec-one-short", "B20.p3", ["C20"], [("src/arr.rs", "$crate::alloc::vec![$x; __LEN])", "$crate::alloc::vec![$x; __LEN - (__LEN > 3) as usize])")], "C20.B")
 mutant_on_patch("m-B18p3-view-on-a-flattening-that-is-one-too-long", "B18.p3", ["C02", "C13", "C01"], [("src/lib.rs", "slice::from_raw_parts(slice.as_ptr() as *const T, slice.len() * N::USIZE)", "slice::from_raw_parts(slice.as_ptr() as *const T, slice.len() * N::USIZE + (N::USIZE > 30) as usize)")], "")
 mutant_on_patch("m-B19p2-zeroize-helper-skips-the-first", "B19.p2", ["C19"], [("src/impl_zeroize.rs", "    GenericArray::slice_from_chunks_mut(chunks)\n", "    GenericArray::slice_from_chunks_mut(chunks)[(N::USIZE > 20) as usize..]\n")], "C19.Z")
+
+# ---- Hash::hash_slice overrides (round 19 / S216): each piece to the array's own `hash`, once, in order
+_HS_OLD = "        Hash::hash(self.as_slice(), state)\n    }\n"
+def _hs(body):
+    return [("src/impls.rs", _HS_OLD, _HS_OLD + "\n    fn hash_slice<H: Hasher>(data: &[Self], state: &mut H) {\n        %s\n    }\n" % body)]
+benign("c13-hash-slice-override-loop", ["C13"], _hs("for piece in data { Hash::hash(piece, state); }"))
+benign("c13-hash-slice-override-for-each", ["C13"], _hs("data.iter().for_each(|piece| piece.hash(state));"))
+mutant("c13-hash-slice-override-skips-the-first", ["C13"], _hs("for piece in data.iter().skip(1) { Hash::hash(piece, state); }"), "C13.D")
+mutant("c13-hash-slice-override-hashes-the-elements", ["C13"], _hs("for piece in data { for x in piece.iter() { Hash::hash(x, state); } }"), "C13.D")
